@@ -246,6 +246,7 @@ pub fn death_violation(prop: &str, case: &Case, class: &str, site: &str, stderr_
             }
         }
         "C07" => mk(&format!("worker_death_{}", class), format!("{}/{}", leg, case.level.class())),
+        "C10" => mk(class, format!("{}/{}/{}", if case.run_stream { "simbuf" } else { "bytes" }, case.level.name(), if class == "alloc_bound" { site } else { case.fault_kind.as_str() })),
         _ => None,
     }
 }
@@ -336,6 +337,7 @@ pub fn rule_for(prop: &str) -> &'static str {
         "C12" => "cases = (input bytes, leg, explicit delivery schedule) derived from VERIF_SEED: per unit one seeded value (generated type with writer-schema variation / arbitrary wire value / message envelope) x {whole, byte-at-a-time, every single split point for short messages, seeded multi-split schedules with Pending and deferred wakes} plus truncations and bit flips; each case runs the real in-memory decoder and the real async decoder over SimStream. A case is non-trivial if its schedule splits or delays delivery or its input is faulted; distinct = distinct digest of (property, protocol, level, bytes, schedule).",
         "C07" => "cases = (encoded value + trailer, skip level, schedule): per unit a seeded value of an arbitrary wire type skipped directly, as an unknown field followed by a sibling field, and (binary) through the unchecked reader's iterative skipper; depth band nest 1..60 / 70..80 and 200..100000-deep bombs; stream legs under whole, bytewise, every single split (short values) and seeded Pending schedules. Non-trivial = anything but the single whole-buffer fault-free configuration; distinct by digest of (protocol, level, bytes, schedule, leg).",
         "C09" => "fault enumeration per seeded base message: every truncation point, every single-bit flip (short messages; sampled above), every length/count span overwritten with the boundary set, type codes, field ids, span drop/duplication, random byte strings, nesting bombs; each on the in-memory leg and on the stream leg under a seeded schedule (some with injected I/O errors). Non-trivial = a fault was applied; distinct by digest of (protocol, level, faulted bytes, schedule, leg).",
+        "C10" => "fault enumeration per seeded base (generated protobuf messages from the schema table, every runtime field codec with every wire type, the well-known wrapper impls, length-delimited framing): every truncation point, bit flips, every length prefix overwritten with the boundary set, the wire-type bits of every key rewritten to 0..7, span drop/duplication, random bytes, nesting of messages / repeated messages / map entries / known and unknown groups to depth 1..20000; each input through a contiguous Bytes and through SimBuf (a Buf whose chunk() exposes seeded fragments: 1-byte, split inside varints and fixed-width values). Non-trivial = a fault was applied or the Buf is fragmented; distinct by digest of (level, bytes, chunk plan, leg).",
         "C19" => "fault enumeration per seeded base message (generated types mostly): every truncation point and the C09 corruptions; each failing decode is executed three times and the allocator's live-byte counter compared before/after. Non-trivial = a fault was applied; distinct by digest of (protocol, level, faulted bytes, schedule, leg).",
         _ => "",
     }
